@@ -97,7 +97,40 @@ func runChild(sp crashSpec, scratch string) (exit int, n int, out string) {
 
 // recover runs the recovery side of one crash case in this process: reopen,
 // check, retry, compare with the uninterrupted reference, continue.
-func recoverAndCheck(sp crashSpec) (what string) {
+func recoverAndCheck(sp crashSpec) (what string) { return recoverAndCheckUpTo(sp, false) }
+
+// recoverChild: `dbmc recover-child <spec.json>`; second crash of a case.  The
+// database in Dir was left by a first crash; this process reopens it and
+// retries the interrupted operation exactly as the parent would, and dies
+// (exit 77) right after the Crash2-th durable write of reopen + retry.  Exit 0
+// when recovery and retry complete first (no such boundary).
+func recoverChild() {
+	b, err := os.ReadFile(os.Args[2])
+	if err != nil {
+		fmt.Println("child: ", err)
+		os.Exit(3)
+	}
+	var sp crashSpec
+	if err := json.Unmarshal(b, &sp); err != nil {
+		fmt.Println("child: ", err)
+		os.Exit(3)
+	}
+	var count atomic.Int64
+	hook := func(kind string) {
+		if sp.Crash2 > 0 && int(count.Add(1)) == sp.Crash2 {
+			os.Exit(77)
+		}
+	}
+	armCrash2 = func() { verifhook.Durable.Store(&hook) }
+	_ = recoverAndCheckUpTo(sp, true) // a violation here is a single-crash violation, reported by the single-crash phase
+	verifhook.Durable.Store(nil)
+	os.Exit(0)
+}
+
+// armCrash2, if set, is called right before the on-disk database is reopened.
+var armCrash2 func()
+
+func recoverAndCheckUpTo(sp crashSpec, stopAfterRetry bool) (what string) {
 	defer func() {
 		if p := recover(); p != nil {
 			what = fmt.Sprintf("panic during recovery: %v", p)
@@ -109,6 +142,9 @@ func recoverAndCheck(sp crashSpec) (what string) {
 		return "harness: reference replay failed: " + w
 	}
 	refEnv.ndb.Close()
+	if armCrash2 != nil {
+		armCrash2()
+	}
 	e, err := openEnv(sp.Backend, sp.Dir)
 	if err != nil {
 		return "reopening the database after the crash failed: " + err.Error()
@@ -200,6 +236,9 @@ func recoverAndCheck(sp crashSpec) (what string) {
 	}
 	if w := e.readBack(); w != "" {
 		return "after retrying the interrupted operation: " + w
+	}
+	if stopAfterRetry {
+		return ""
 	}
 	// (4) the rest of the history.
 	for i := sp.Pos + 1; i < len(sp.History); i++ {
@@ -339,6 +378,47 @@ func c07Case(sp crashSpec, base string, id int) (exit int, what string) {
 	return 77, recoverAndCheck(sp)
 }
 
+// c07Case2: first crash at boundary K of letter Pos, then a second crash at
+// boundary Crash2 of reopen + retry; the parent then recovers as usual.
+// more=false when reopen + retry have fewer than Crash2 durable writes.
+func c07Case2(sp crashSpec, base string, id int) (more bool, what string) {
+	dir := filepath.Join(base, fmt.Sprintf("case2-%d", id))
+	_ = os.RemoveAll(dir)
+	_ = os.MkdirAll(dir, 0o755)
+	defer os.RemoveAll(dir)
+	sp.Dir = filepath.Join(dir, "db")
+	first := sp
+	first.Crash2 = 0
+	ex, _, out := runChild(first, dir)
+	if ex != 77 {
+		if ex == 0 {
+			return false, ""
+		}
+		return false, fmt.Sprintf("harness: child failed (exit %d): %s", ex, out)
+	}
+	b, _ := json.Marshal(sp)
+	f := filepath.Join(dir, "spec2.json")
+	_ = os.WriteFile(f, b, 0o644)
+	cmd := exec.Command(os.Args[0], "recover-child", f)
+	cmd.Env = append(os.Environ(), "GOMAXPROCS=2")
+	o, err := cmd.CombinedOutput()
+	ex2 := 0
+	if err != nil {
+		if ee, ok := err.(*exec.ExitError); ok {
+			ex2 = ee.ExitCode()
+		} else {
+			ex2 = -1
+		}
+	}
+	switch ex2 {
+	case 0:
+		return false, ""
+	case 77:
+		return true, recoverAndCheck(first)
+	}
+	return false, fmt.Sprintf("harness: recover-child failed (exit %d): %s", ex2, string(o))
+}
+
 func runC07(r *ev.Run) {
 	if r.Replay != "" {
 		v, err := ev.LoadReplay(r.Replay)
@@ -351,7 +431,12 @@ func runC07(r *ev.Run) {
 		_ = json.Unmarshal(b, &a)
 		base, _ := os.MkdirTemp(shmBase(), "verif-c07-")
 		defer os.RemoveAll(base)
-		_, what := c07Case(a.Spec, base, 0)
+		var what string
+		if a.Spec.Crash2 > 0 {
+			_, what = c07Case2(a.Spec, base, 0)
+		} else {
+			_, what = c07Case(a.Spec, base, 0)
+		}
 		if what != "" {
 			fmt.Printf("VIOLATION property=C07 replay=%s\n  what: %s\n", r.Replay, what)
 			os.Exit(1)
@@ -437,11 +522,42 @@ func runC07(r *ev.Run) {
 		}
 	})
 	_ = outcomes
+	// 3. two crashes: the second one at every durable-write boundary of reopen + retry.
+	jobs2 := jobs
+	var double atomic.Int64
+	ev.ParallelRange(len(jobs2), r.Seed, func(ji int) {
+		for k2 := 1; k2 <= 40; k2++ {
+			if r.Expired() {
+				r.Cap("deadline")
+				return
+			}
+			sp := jobs2[ji].sp
+			sp.Crash2 = k2
+			more, what := c07Case2(sp, base, ji)
+			if what != "" {
+				if strings.HasPrefix(what, "harness:") {
+					r.HarnessError("%s [%s pos %d k %d k2 %d]", what, historyString(sp.History), sp.Pos, sp.K, k2)
+					return
+				}
+				r.Violate(ev.Violation{Engine: "dbmc", Key: fmt.Sprintf("c07 %s [%s] crash in %s after durable write %d, second crash after write %d of reopen+retry", sp.Backend, historyString(sp.History), sp.History[sp.Pos], sp.K, k2),
+					What:     fmt.Sprintf("%s, history [%s], process killed inside %s right after its durable write #%d, then killed again right after durable write #%d of reopening and retrying: %s", sp.Backend, historyString(sp.History), sp.History[sp.Pos], sp.K, k2, what),
+					Artefact: c07Artefact{Spec: sp}})
+				return
+			}
+			if !more {
+				return
+			}
+			r.Add("evaluations", 1)
+			double.Add(1)
+			nontrivial.Add(1)
+		}
+	})
+	r.Set("double_crash_cases", int(double.Load()))
 	r.Set("distinct_nontrivial", int(nontrivial.Load()))
 	r.Set("histories", len(hs))
 	r.Set("operations_interrupted", len(hps))
-	r.Set("rule", "for each curated history (competing roots, finalize of a non-first candidate, IO roots, unchanged roots, prune with lag, checkpoint restores with abort/restart and forward jump), each letter and each durable-write boundary k of that letter (counted by a dry run through hooks in a patched badger copy: after every WriteBatch.Flush and Txn.Commit): a child process replays the prefix on an on-disk database, runs the letter and exits abruptly right after durable write k; the parent reopens the database, checks every previously finalized version (full read-back), that no unfinished restore is visible, retries the letter, compares with the uninterrupted reference and runs the rest of the history with read-back after each letter. distinct_nontrivial = cases in which the child actually died at the selected boundary")
-	r.Assume("process death, not power loss: everything written before the exit is kept (NoFsync, page cache)", "crash points are durable-write boundaries as seen by badger (WriteBatch.Flush, Txn.Commit); a batch is assumed to be atomic", "one crash per case")
+	r.Set("rule", "for each curated history (competing roots, finalize of a non-first candidate, IO roots, unchanged roots, prune with lag, checkpoint restores with abort/restart and forward jump), each letter and each durable-write boundary k of that letter (counted by a dry run through hooks in a patched badger copy: after every WriteBatch.Flush and Txn.Commit): a child process replays the prefix on an on-disk database, runs the letter and exits abruptly right after durable write k; the parent reopens the database, checks every previously finalized version (full read-back), that no unfinished restore is visible, retries the letter, compares with the uninterrupted reference and runs the rest of the history with read-back after each letter; double-crash phase: for every such case and every durable-write boundary k2 of reopening + retrying, a second child is killed there and the parent recovers again with the same oracle. distinct_nontrivial = cases in which the child actually died at the selected boundary")
+	r.Assume("process death, not power loss: everything written before the exit is kept (NoFsync, page cache)", "crash points are durable-write boundaries as seen by badger (WriteBatch.Flush, Txn.Commit); a batch is assumed to be atomic", "at most two crashes per case: the second one inside reopening + retrying the interrupted operation")
 	r.Finish()
 }
 
